@@ -63,7 +63,7 @@ func cmdSig(args []string) {
 		}
 		// the custom function lives next to the converter or in x1/ext / x2/ext
 		q, xi := "", -1
-		if s.Use == "extend" && pkgOf[i] == "p" && s.Place != "local" && s.Place != "" {
+		if s.Use == "extend" && pkgOf[i] == "p" && s.Place != "local" && s.Place != "regex" && s.Place != "" {
 			q, xi = "p.", int(s.Place[1]-'1')
 		}
 		var ps []string
@@ -144,6 +144,9 @@ func cmdSig(args []string) {
 				trail = " // goverter:context ctx"
 			}
 			fsrc, ext := src, fmt.Sprintf("F%d", i)
+			if s.Place == "regex" {
+				ext = fmt.Sprintf("F%dx?", i)
+			}
 			if xi >= 0 {
 				fsrc, ext = &srcX[xi], fmt.Sprintf("%s/x%d/ext:F%d", b.Mod, xi+1, i)
 				usedX[xi] = true
